@@ -139,17 +139,32 @@ func (ab *AccessBarrier) doCleanup() {
 		node := iter.GetNode()
 		bs := (*BarrierSession)(node.Item())
 		verifYield(vpAbC2, unsafe.Pointer(ab), unsafe.Pointer(bs), 0)
-		if bs.seqno != ab.freeSeqno+1 {
+		if bs.seqno != atomic.LoadUint64(&ab.freeSeqno)+1 {
 			return
 		}
 
-		ab.freeSeqno++
+		atomic.AddUint64(&ab.freeSeqno, 1)
 		ab.callb(bs.objectRef)
 		verifYield(vpAbC3, unsafe.Pointer(ab), unsafe.Pointer(bs), 0)
 		ab.freeq.DeleteNode(node, CompareBS, buf2, &ab.freeq.Stats)
 		ab.numFreed++
 		verifYield(vpAbC4, unsafe.Pointer(ab), unsafe.Pointer(bs), 0)
 	}
+}
+
+// hasDueSession reports whether the oldest queued session is the next one to
+// be destructed.
+func (ab *AccessBarrier) hasDueSession(buf *ActionBuffer) bool {
+	iter := ab.freeq.NewIterator(CompareBS, buf)
+	defer iter.Close()
+
+	iter.SeekFirst()
+	if !iter.Valid() {
+		return false
+	}
+
+	bs := (*BarrierSession)(iter.Get())
+	return bs.seqno == atomic.LoadUint64(&ab.freeSeqno)+1
 }
 
 // Acquire marks enter of an accessor in the skiplist
@@ -188,11 +203,20 @@ func (ab *AccessBarrier) Release(bs *BarrierSession) {
 				if !ab.freeq.Insert(unsafe.Pointer(bs), CompareBS, buf, &ab.freeq.Stats) {
 					panic("unable to insert barrier session into free list")
 				}
+			retry:
 				verifYield(vpAbR4, unsafe.Pointer(ab), unsafe.Pointer(bs), 0)
 				if atomic.CompareAndSwapInt32(&ab.isDestructorRunning, 0, 1) {
 					ab.doCleanup()
 					verifYield(vpAbR5, unsafe.Pointer(ab), unsafe.Pointer(bs), 0)
 					atomic.CompareAndSwapInt32(&ab.isDestructorRunning, 1, 0)
+					// A session may have been queued while the cleanup above was
+					// finishing (its iterator already past the end, or stopped at a
+					// gap that has just been filled) by a goroutine that then lost
+					// the try-lock to us. Nobody else would destruct it until some
+					// later flush: re-check now that the try-lock is free.
+					if ab.hasDueSession(buf) {
+						goto retry
+					}
 				}
 			}
 		} else if liveCount < 0 || liveCount == barrierFlushOffset-1 {
